@@ -50,9 +50,17 @@ def main(argv):
             props = props + [p for p in ALL if p not in props]
         r = sh('git -C %s apply %s' % (REPO, os.path.join(d, 'patch.diff')))
         if r.returncode != 0:
-            results[sid] = {'error': 'patch does not apply: ' + r.stdout[-300:]}
-            print(sid, 'PATCH FAILED')
-            continue
+            # the repository has moved on since the change was written (later fixes): merge it three-way
+            r = sh('git -C %s apply --3way %s' % (REPO, os.path.join(d, 'patch.diff')))
+            sh('git -C %s reset -q' % REPO)
+            conflict = sh('git -C %s diff --check' % REPO).stdout.strip() or ('<<<<<<<' in sh('git -C %s diff' % REPO).stdout)
+            if r.returncode != 0 or conflict:
+                sh('git -C %s checkout -- .' % REPO)
+                results[sid] = {'error': 'patch does not apply (also not three-way): ' + r.stdout[-300:]}
+                print(sid, 'PATCH FAILED')
+                with open(res_path, 'w') as f:
+                    json.dump(results, f, indent=1, sort_keys=True)
+                continue
         entry = {'target': props[:1], 'checks': {}}
         try:
             for p in props:
